@@ -32,6 +32,12 @@ def ldexp(x, k):
     return np.ldexp(x.astype(float) if not np.issubdtype(x.dtype, np.floating) else x, k)
 
 
+def is_single(a):
+    """Single-precision floating point data (any byte order)."""
+    a = np.asarray(a)
+    return a.dtype.kind in 'fc' and float(np.finfo(a.dtype).eps) > 1e-10
+
+
 def same_bits(a, b):
     a = np.asarray(a)
     b = np.asarray(b)
@@ -70,7 +76,7 @@ def check_qr(ctx, A0, q0_0, q1_0, args_after, result, in_situ=False, tag='qr'):
     ctx.ok(f'{tag}.qinterm-integer', np.issubdtype(qi_arr.dtype, np.integer), f'qinterm dtype {qi_arr.dtype}', detail, s)
     ctx.ok(f'{tag}.finite', bool(np.all(np.isfinite(Q)) and np.all(np.isfinite(R))), 'non-finite factor', detail, s)
     nA = _fro(A0)
-    eps_scale = 1e-11 if A0.dtype not in (np.float32, np.complex64) else 1e-4
+    eps_scale = 1e-11 if not is_single(A_live) else 1e-4
     ctx.close(f'{tag}.product', _fro(Q @ R - A0), eps_scale * nA, 'Q@R != A', detail, s)
     ctx.close(f'{tag}.isometry', _fro(Q.conj().T @ Q - np.identity(k)), eps_scale * max(1, np.sqrt(k)), 'Q^H Q != I', detail, s)
     ctx.ok(f'{tag}.sector-Q', refs.sector_ok(Q, [q0_0, qi_arr], [1, -1]), 'Q not block sparse under (q0, qinterm)', detail, s)
